@@ -493,6 +493,8 @@ type HuntHit struct {
 	Mat     *MatCase `json:"mat,omitempty"`
 	Jet     *JetRef `json:"jet,omitempty"`
 	Sp      *SpCase `json:"sp,omitempty"`
+	Sc      *ScCase `json:"sc,omitempty"`
+	Hist    *HistCase `json:"hist,omitempty"`
 	Failure string  `json:"failure"`
 	Aliased string  `json:"aliased"`
 	Fresh   string  `json:"fresh"`
